@@ -14,7 +14,8 @@ impl Sched for Rendezvous {
         if p != Point::Run || tag >= 1000 { return; }
         let mut g = self.arrived.lock().unwrap();
         g.0 += 1;
-        { let mut m = self.max_seen.lock().unwrap(); if g.0 > *m { *m = g.0; } }
+        // (arrivals beyond `width` belong to a later dispatch of the same repetition: they neither count nor wait)
+        { let mut m = self.max_seen.lock().unwrap(); if g.0 > *m && g.0 <= self.width { *m = g.0; } }
         self.cv.notify_all();
         let deadline = Instant::now() + self.limit;
         let generation = g.1;
@@ -34,7 +35,7 @@ fn flat(width: u32) -> Vec<Reg> {
     (1..=width).map(|t| Reg::Sys { tag: t, name: format!("s{}", t), deps: vec![], reads: vec![], writes: vec![100 + t], time: 3, kind: SysKind::Dynamic }).collect()
 }
 
-/// cfg: user | default | batch | async | foreign | asyncforeign | defbatch | batchfirst ; returns "arrived=<max simultaneously inside>;timeout=<0|1>;ok=<0|1>" per repetition
+/// cfg: user | default | batch | async | foreign | asyncforeign | asyncdouble | defbatch | batchfirst ; returns "arrived=<max simultaneously inside>;timeout=<0|1>;ok=<0|1>" per repetition
 pub fn observe(cfg: &str, width: u32, pool_size: usize, reps: u32, limit_ms: u64) -> String {
     let rec = Recorder::new(MapMode::B);
     rec.set_caller();
@@ -65,7 +66,7 @@ pub fn observe(cfg: &str, width: u32, pool_size: usize, reps: u32, limit_ms: u64
     let rv = Arc::new(Rendezvous { width: width as usize, arrived: Mutex::new((0, 0)), cv: Condvar::new(), limit: Duration::from_millis(limit_ms),
                                    timed_out: Mutex::new(false), max_seen: Mutex::new(0) });
     let mut res = Vec::new();
-    if cfg == "async" || cfg == "asyncforeign" {
+    if cfg == "async" || cfg == "asyncforeign" || cfg == "asyncdouble" {
         let world = make_world(&regs, MapMode::B);
         let mut ad = builder.build_async(world);
         let _ = catch_unwind(AssertUnwindSafe(|| ad.setup()));
@@ -81,6 +82,9 @@ pub fn observe(cfg: &str, width: u32, pool_size: usize, reps: u32, limit_ms: u64
                 let adr = SendPtr(&mut ad as *mut shred::AsyncDispatcher<'static, shred::World>);
                 let o = outer1.as_ref().unwrap();
                 catch_unwind(AssertUnwindSafe(|| o.install(move || { let a = adr; let ad = unsafe { &mut *a.0 }; ad.dispatch(); ad.wait(); })))
+            } else if cfg == "asyncdouble" {
+                // a second dispatch() issued while the first is in flight must not take a pool thread away from it
+                catch_unwind(AssertUnwindSafe(|| { ad.dispatch(); ad.dispatch(); ad.wait(); }))
             } else { catch_unwind(AssertUnwindSafe(|| { ad.dispatch(); ad.wait(); })) };
             res.push(format!("arrived={}:timeout={}:ok={}", *rv.max_seen.lock().unwrap(), *rv.timed_out.lock().unwrap() as u8, r.is_ok() as u8));
             if *rv.timed_out.lock().unwrap() { break; }
